@@ -10,6 +10,7 @@ OVERLAY = {
     "core/record/zz_c08_rsa8192_verif_test.go": "harness/overlay/record/c08_rsa8192_verif_test.go",
     "core/record/zz_c08_round2_verif_test.go": "harness/overlay/record/c08_round2_verif_test.go",
     "core/record/zz_c08_round2b_verif_test.go": "harness/overlay/record/c08_round2b_verif_test.go",
+    "core/record/zz_c08_round3_verif_test.go": "harness/overlay/record/c08_round3_verif_test.go",
 }
 PKG = "core/record"
 
@@ -43,7 +44,10 @@ KIND = {1: "varint-encode", 2: "varint-decode", 3: "makeUnsigned", 4: "makeUnsig
         8: "marshalled public key edit", 9: "peer.Decode", 10: "IDFromBytes/ExtractPublicKey",
         11: "non-canonical serialization of a key", 12: "MatchesPublicKey", 13: "RSA key size boundary",
         14: "ExtractPublicKey under AdvancedEnableInlining", 15: "seal, mutate the producer's record, consume the same envelope",
-        16: "/p2p address form (IDFromP2PAddr, SplitAddr, AddrInfoFromP2pAddr)", 17: "hand-sealed relay voucher"}
+        16: "/p2p address form (IDFromP2PAddr, SplitAddr, AddrInfoFromP2pAddr)", 17: "hand-sealed relay voucher",
+        19: "edited private-key blob"}
+REGION = {0: "none", 1: "protobuf framing", 2: "ed25519 seed", 3: "ed25519 public half", 4: "key data", 5: "truncation",
+          6: "extension", 7: "legacy 96-byte form", 8: "legacy form, copies differ"}
 
 
 class Rd:
@@ -113,7 +117,8 @@ def describe(t):
             d["marshalled_hex"] = r.b().hex()[:120]; r.b(); d["id_hex"] = r.b().hex()
             d["extract(0=key,1=ErrNoPublicKey,2=error,3=other key)"] = r.z()
         elif k == 15:
-            d["api"] = {0: "Envelope.Record()", 1: "Envelope.TypedRecord(fresh)", 2: "pstoremem.ConsumePeerRecord", 3: "pstoreds.ConsumePeerRecord"}.get(r.z())
+            d["api"] = {0: "Envelope.Record()", 1: "Envelope.TypedRecord(fresh)", 2: "pstoremem.ConsumePeerRecord", 3: "pstoreds.ConsumePeerRecord",
+                        4: "ConsumeTypedEnvelope twice into ONE destination (this is the second record)", 5: "TypedRecord twice into ONE destination (this is the second record)"}.get(r.z())
             d["peer_record"] = r.z(); d["signer_id_hex"] = r.b().hex(); d["sealed_payload_hex"] = r.b().hex()[:160]
             d["sealed_peer_id_hex"] = r.b().hex(); d["sealed_seq+addrs_hex"] = r.b().hex()[:120]
             d["handed_out"] = {"ok": r.z(), "peer_id_hex": r.b().hex(), "seq+addrs_hex": r.b().hex()[:120]}
@@ -130,6 +135,10 @@ def describe(t):
             d["api"] = {0: "ConsumeEnvelope", 1: "ConsumeTypedEnvelope"}.get(r.z()); d["destination_reused"] = r.z()
             d["payload_hex"] = r.b().hex(); d["result(1=accepted)"] = r.z()
             d["voucher"] = {"relay_hex": r.b().hex(), "peer_hex": r.b().hex(), "expiration": r.z() * 2 ** 32 + r.z()}
+        elif k == 19:
+            d["key_type"] = r.z(); d["edit_region"] = REGION.get(r.z())
+            d["original_blob_hex"] = r.b().hex()[:160]; d["edited_blob_hex"] = r.b().hex()[:160]
+            d["class(3=accepted)"], d["equal_any"], d["equal_all"], d["remarshals_to_original"], d["signs_for_own_public_key"], d["signs_for_original_public_key"] = t[r.p + 1:r.p + 7]
         elif k == 13:
             d["modulus_bits"], d["private"], d["class(3=accepted)"], d["roundtrip"] = t[1:5]
         elif k in (9,):
@@ -144,7 +153,7 @@ def describe(t):
 def nontrivial(line):
     # non-trivial: an envelope / signature / key edit case, or a colliding-concatenation pair
     k = line.split(b" ", 1)[0]
-    return k in (b"4", b"6", b"7", b"8", b"11", b"12", b"13", b"14", b"15", b"16", b"17")
+    return k in (b"4", b"6", b"7", b"8", b"11", b"12", b"13", b"14", b"15", b"16", b"17", b"19")
 
 
 def key(tag, toks, d):
@@ -168,6 +177,8 @@ def key(tag, toks, d):
         return "C08:%s:clause%s:protocols=%s" % (KIND[k], clause, "/".join(str(c["protocol_code"]) for c in describe(toks).get("components", [])))
     if k == 17:
         return "C08:%s:clause%s:api=%s:reused=%s:payload=%s" % (KIND[k], clause, toks[1], toks[2], describe(toks).get("payload_hex", "")[:16])
+    if k == 19:   # clause + key type + where the edit hit (the blobs are fresh per run)
+        return "C08:%s:clause%s:keytype=%s:region=%s" % (KIND[k], clause, toks[1], REGION.get(toks[2], toks[2]))
     if k == 13:
         return "C08:%s:clause%s:bits=%s:private=%s:class=%s:roundtrip=%s" % ((KIND[k], clause) + tuple(toks[1:5]))
     return "C08:%s:clause%s:%s" % (KIND.get(k, k), clause, " ".join(map(str, toks[1:40])))
@@ -196,6 +207,9 @@ def what(tag, toks, d):
         (16, 162): "the address does not read back as its last /p2p component (or names somebody although it does not end in /p2p)",
         (17, 171): "an accepted relay voucher holds fields other than those of the sealed payload",
         (17, 172): "a payload that is not a voucher (relay or peer missing / not a peer ID) was accepted as one",
+        (19, 190): "MarshalPrivateKey then UnmarshalPrivateKey did not yield an equal key",
+        (19, 191): "an edited private-key blob unmarshals to a key reported EQUAL to the original although what it signs does not verify under the original public key",
+        (19, 192): "an edited private-key blob unmarshals to a private key whose signatures do not verify under its own GetPublic()",
         (13, 131): "an RSA key of a size that can be generated does not unmarshal / round-trip",
     }.get((k, clause))
     if msg is None and k == 5:
@@ -230,6 +244,6 @@ if __name__ == "__main__":
              "non-minimal varints/enum truncation), foreign key and foreign signature pairings, re-sealing by a foreign key, wrong domains. "
              "Byte-level functions (uvarint, makeUnsigned, MarshalPublicKey, IDFromPublicKey, base58/CID text, multihash, protobuf scan of "
              "every mutated envelope/key) are compared byte for byte with the Coq model (conform_case); every attempt is judged by the "
-             "property monitor (monitor_case). Also: every accepted non-canonical serialization of each key (unknown fields, order, redundant varints, repeated fields) stand-alone and inside envelopes must give an equal key with the same marshalled form and the same ID; alias IDs (identity multihash over such serializations, inline form of hashed keys, hashed form of inlined keys) as MatchesPublicKey probes and as PeerRecord.PeerID through both peerstores; RSA moduli of 1024..16384 bits around MinRsaKeyBits/maxRsaKeyBits plus one embedded real 8192-bit key pair (private/public round trip, all ID forms, a signature). Round 2: sig(x) tried on sha256/sha512/sha512-256/sha1/sha384(x) and sig(H(x)) on x for every key type, messages of exactly 0..65 bytes; IDs made and keys extracted under both values of AdvancedEnableInlining (binary, base58, CID forms); Seal, then the producer edits/reuses the record, then Record()/TypedRecord/both peerstores on the same *Envelope; multiaddrs from component lists incl. relay/circuit forms (IDFromP2PAddr vs SplitAddr vs AddrInfoFromP2pAddr vs the model); relay voucher payloads written by hand (fields removed/empty/repeated/reordered), sealed and consumed into fresh and reused destinations. Non-trivial = envelope, signature, key-edit, alias, MatchesPublicKey, RSA-size and colliding-concatenation cases.",
+             "property monitor (monitor_case). Also: every accepted non-canonical serialization of each key (unknown fields, order, redundant varints, repeated fields) stand-alone and inside envelopes must give an equal key with the same marshalled form and the same ID; alias IDs (identity multihash over such serializations, inline form of hashed keys, hashed form of inlined keys) as MatchesPublicKey probes and as PeerRecord.PeerID through both peerstores; RSA moduli of 1024..16384 bits around MinRsaKeyBits/maxRsaKeyBits plus one embedded real 8192-bit key pair (private/public round trip, all ID forms, a signature). Round 2: sig(x) tried on sha256/sha512/sha512-256/sha1/sha384(x) and sig(H(x)) on x for every key type, messages of exactly 0..65 bytes; IDs made and keys extracted under both values of AdvancedEnableInlining (binary, base58, CID forms); Seal, then the producer edits/reuses the record, then Record()/TypedRecord/both peerstores on the same *Envelope; multiaddrs from component lists incl. relay/circuit forms (IDFromP2PAddr vs SplitAddr vs AddrInfoFromP2pAddr vs the model); relay voucher payloads written by hand (fields removed/empty/repeated/reordered), sealed and consumed into fresh and reused destinations. Round 3: every byte flipped / every truncation / extension / legacy forms of marshalled PRIVATE keys of every type (error, or not reported equal unless interchangeable with the original; whatever unmarshals must sign for its own public key); ECDSA keys on P-224/P-384/P-521 (GenerateECDSAKeyPairWithCurve, KeyPairFromStdKey) through the key, signature, digest, ID, alias, envelope and peer-record streams; two different sealed records (PeerRecord, voucher, generic) consumed into ONE destination via ConsumeTypedEnvelope / TypedRecord. Non-trivial = envelope, signature, key-edit, alias, MatchesPublicKey, RSA-size and colliding-concatenation cases.",
         describe=describe, key=key, what=what, crosscheck=60,
     ))
